@@ -189,7 +189,7 @@ def run_job(job, cfg, scratch, keep=False, variant=None):
         cb = ['cbmc', cur, '--no-standard-checks', '--bounds-check', '--pointer-check', '--div-by-zero-check', '--no-malloc-may-fail',
               '--slice-formula']
         if job.unwind: cb += ['--unwind', str(job.unwind), '--unwinding-assertions']
-        if job.objbits: cb += ['--object-bits', str(job.objbits)]
+        cb += ['--object-bits', str(job.objbits or 12)]
         if job.solver != 'minisat': cb += ['--sat-solver', job.solver or 'cadical']
         cb += job.flags
         r.cmd = ' '.join(cb).replace(scratch, '$SCRATCH')
